@@ -9,7 +9,8 @@ or a docstring starts and ends.
   a code character).  `cfg.nls` are the code points which end a line in the language;
   `cfg.splice` says that a backslash before the line end (GCC: also with white space in
   between) continues a `//` comment on the next line (C, C++).
-  Instances: `java` (JLS 3.4, 3.7), `js` (ECMA-262 12.3, 12.4: LF CR U+2028 U+2029),
+  Instances: `java` (JLS 3.4, 3.7), `js` (ECMA-262 12.3, 12.4: LF CR U+2028 U+2029; inside a string
+  literal only LF and CR since ES2019, which is the edition the check reads TypeScript with),
   `cpp` (ISO C++ [lex.phases] 2, [lex.comment]; GCC nvspace rule), `go` (Go spec "Comments":
   only LF ends a line), `cs` (ECMA-334 6.3.2/6.3.3: CR LF U+0085 U+2028 U+2029).
 * `javaUnescape` — the Unicode-escape translation of JLS 3.3 which runs before the Java lexer.
@@ -36,12 +37,15 @@ structure Cfg where
   splice : Bool
   /-- code points which may stand between the backslash and the line end of a splice -/
   spliceWs : List Nat
+  /-- code points which may not stand in a string literal (the line terminators, but JavaScript since
+  ES2019 allows U+2028 and U+2029 there) -/
+  strNls : List Nat
 
-def java : Cfg := ⟨[10, 13], false, []⟩
-def js : Cfg := ⟨[10, 13, 0x2028, 0x2029], false, []⟩
-def cpp : Cfg := ⟨[10, 13], true, [32, 9, 11, 12, 0, 13]⟩
-def go : Cfg := ⟨[10], false, []⟩
-def cs : Cfg := ⟨[10, 13, 0x85, 0x2028, 0x2029], false, []⟩
+def java : Cfg := ⟨[10, 13], false, [], [10, 13]⟩
+def js : Cfg := ⟨[10, 13, 0x2028, 0x2029], false, [], [10, 13]⟩
+def cpp : Cfg := ⟨[10, 13], true, [32, 9, 11, 12, 0, 13], [10, 13]⟩
+def go : Cfg := ⟨[10], false, [], [10]⟩
+def cs : Cfg := ⟨[10, 13, 0x85, 0x2028, 0x2029], false, [], [10, 13, 0x85, 0x2028, 0x2029]⟩
 
 inductive St where
   | code
@@ -76,7 +80,7 @@ def lexC (cfg : Cfg) : St → Text → List Tok
     if esc then lexC cfg (.str q (c :: acc) false) r
     else if c = 92 then lexC cfg (.str q (c :: acc) true) r
     else if c = q then .str acc.reverse :: lexC cfg .code r
-    else if cfg.nls.contains c then .bad "newline-in-string" :: lexC cfg .code r
+    else if cfg.strNls.contains c then .bad "newline-in-string" :: lexC cfg .code r
     else lexC cfg (.str q (c :: acc) false) r
 
 /-! ### Java: Unicode escapes (JLS 3.3) -/
